@@ -861,6 +861,10 @@ mut("c19-filter-delegate-silent-local", "C19", "feature.go", "\t\treturn Locatio
 mut("c14-raise-silent-via-variable", "C14", "cmd/gts/search.go", "\t\t\treturn ctx.Raise(fmt.Errorf(\"query sequence file %q does not contain a sequence\", *queryPath))\n", "\t\t\tfailure := ctx.Raise(fmt.Errorf(\"query sequence file %q does not contain a sequence\", *queryPath))\n\t\t\treturn failure\n", silent=True)
 mut("c14-raise-variable-not-returned", "C14", "cmd/gts/search.go", "\t\t\treturn ctx.Raise(fmt.Errorf(\"query sequence file %q does not contain a sequence\", *queryPath))\n", "\t\t\tfailure := ctx.Raise(fmt.Errorf(\"query sequence file %q does not contain a sequence\", *queryPath))\n\t\t\t_ = failure\n", ["RAISE-RETURNED|main.searchFunc|Raise#2"])
 
+mut("c19-strand-complement-constant-reverted", "C19", "location.go", "\t\tswitch CheckStrand(v.Location) {\n\t\tcase StrandForward:\n\t\t\treturn StrandReverse\n\t\tcase StrandReverse:\n\t\t\treturn StrandForward\n\t\tdefault:\n\t\t\treturn StrandBoth\n\t\t}\n", "\t\treturn StrandReverse\n", ["STRAND-COMPLEMENT|gts.CheckStrand|Complemented"], note="the repaired defect, reintroduced")
+mut("c19-strand-complement-both-as-reverse", "C19", "location.go", "\t\tcase StrandReverse:\n\t\t\treturn StrandForward\n\t\tdefault:\n\t\t\treturn StrandBoth\n\t\t}\n", "\t\tcase StrandReverse:\n\t\t\treturn StrandForward\n\t\tdefault:\n\t\t\treturn StrandReverse\n\t\t}\n", ["STRAND-COMPLEMENT|gts.CheckStrand|Complemented"])
+mut("c19-strand-complement-silent-if-chain", "C19", "location.go", "\t\tswitch CheckStrand(v.Location) {\n\t\tcase StrandForward:\n\t\t\treturn StrandReverse\n\t\tcase StrandReverse:\n\t\t\treturn StrandForward\n\t\tdefault:\n\t\t\treturn StrandBoth\n\t\t}\n", "\t\tinner := CheckStrand(v.Location)\n\t\tif inner == StrandForward {\n\t\t\treturn StrandReverse\n\t\t}\n\t\tif inner == StrandReverse {\n\t\t\treturn StrandForward\n\t\t}\n\t\treturn inner\n", silent=True)
+
 # ---------------------------------------------------------------- refactoring round 3
 mut("c02-normalise-silent-tagless-switch", "C02", "location.go",
     "func (ranged Ranged) Shift(i, n int) Location {\n\tif n == 0 {\n\t\treturn ranged\n\t}\n\tif n < 0 {\n\t\treturn ranged.Expand(i, n)\n\t}\n",
